@@ -80,6 +80,133 @@ theorem decision_general (m : KeyMode) (stop : Bool) (d : Data) (T : Table) (hsk
 
 end
 
+/-! ### the key table changes while a path is being validated; signature fields must be strict DER
+
+The SPKI table is shared with the RTR threads and every lookup of `rtr_bgpsec_validate_as_path` takes the
+table's read lock on its own, so one call sees a sequence of table snapshots `V 0, V 1, …` (`View`): lookups
+`0 … n-1` are made by `check_router_keys`, lookup `n + i` by iteration `i` of the validation loop
+(`n` = number of segments).  `wf sig` = "the octets of the signature field are exactly the DER encoding of an
+ECDSA-Sig-Value" (what `ECDSA_verify` demands before it checks anything), `verify` the ECDSA check proper. -/
+
+section lookups
+variable {H : Type} (hash : List Nat → H) (verify : List Nat → H → List Nat → VRes) (wf : List Nat → Bool)
+
+/-- **Decision with independent lookups, any key selection / loop bound.** -/
+theorem decision_lookups_general (m : KeyMode) (stop : Bool) (d : Data) (V : View) (hski : ∀ s ∈ d.sigs, s.ski.length = 20)
+    (hover : stop = true ∨ NoOverrun d) :
+    validateFull hash verify wf m stop d V = .valid ↔
+      Supported d ∧
+      (∀ i s p, d.sigs[i]? = some s → d.path[i]? = some p → ∃ k ∈ V i, keyOk m s.ski p.asn k = true) ∧
+      (∀ i s p, d.sigs[i]? = some s → d.path[i]? = some p →
+        wf s.sig = true ∧ ∃ k ∈ V (d.sigs.length + i), keyOk m s.ski p.asn k = true ∧
+          verify k.spki (hash (digest d i)) s.sig = .valid) := by
+  unfold validateFull
+  rw [validateV_iff hash (validateSignature wf verify) m stop V d hski hover]
+  apply and_congr_right
+  intro hsup
+  rw [checkRouterKeysV_success_iff m V d.sigs d.path 0 hsup.2.2.1,
+    allOkV_iff_forall hash (validateSignature wf verify) m V d d.path d.sigs d.sigs.length d.targetAs hsup.2.2.1]
+  apply and_congr
+  · constructor
+    · intro h i s p hs hp
+      have := h i s p hs hp
+      rw [Nat.zero_add] at this
+      obtain ⟨k, hk⟩ := List.exists_mem_of_ne_nil _ this
+      simp only [keysFor, List.mem_filter] at hk
+      exact ⟨k, hk.1, hk.2⟩
+    · intro h i s p hs hp
+      obtain ⟨k, hk, hok⟩ := h i s p hs hp
+      rw [Nat.zero_add]
+      intro he
+      have : k ∈ keysFor m (V i) s.ski p.asn := by simp [keysFor, List.mem_filter, hk, hok]
+      rw [he] at this; simp at this
+  · constructor
+    · intro h i s p hs hp
+      obtain ⟨k, hk, hok, hv⟩ := h i s p hs hp
+      rw [validateSignature_valid_iff] at hv
+      exact ⟨hv.1, k, hk, hok, by simpa [digest, targetAt] using hv.2⟩
+    · intro h i s p hs hp
+      obtain ⟨hw, k, hk, hok, hv⟩ := h i s p hs hp
+      refine ⟨k, hk, hok, ?_⟩
+      rw [validateSignature_valid_iff]
+      exact ⟨hw, by simpa [digest, targetAt] using hv⟩
+
+/-- **Decision with independent lookups, full strength** (the tree as repaired: keys count only under the
+    segment's AS, the loop ends with the Signature Segment list).  VALID exactly when the pre-checks pass,
+    every lookup of `check_router_keys` found a key of the segment's SKI and AS, and for every hop `i` the
+    signature field is strict DER and verifies, over the RFC 8205 §4.2 sequence of hop `i`, under a key of
+    the hop's SKI and AS that was RETURNED BY THE LOOKUP OF THAT HOP'S OWN LOOP ITERATION — not by the
+    pre-check, not by another hop's lookup, not by an earlier state of the table. -/
+theorem decision_lookups (d : Data) (V : View) (hski : ∀ s ∈ d.sigs, s.ski.length = 20) :
+    validateFull hash verify wf .skiAndAs true d V = .valid ↔
+      Supported d ∧
+      (∀ i s p, d.sigs[i]? = some s → d.path[i]? = some p → ∃ k ∈ V i, k.ski = s.ski ∧ k.asn = p.asn) ∧
+      (∀ i s p, d.sigs[i]? = some s → d.path[i]? = some p →
+        wf s.sig = true ∧ ∃ k ∈ V (d.sigs.length + i), k.ski = s.ski ∧ k.asn = p.asn ∧
+          verify k.spki (hash (digest d i)) s.sig = .valid) := by
+  rw [decision_lookups_general hash verify wf .skiAndAs true d V hski (Or.inl rfl)]
+  simp only [keyOk, Bool.and_eq_true, decide_eq_true_eq, and_assoc]
+
+/-- VALID ⇒ every hop's signature field is a strict DER ECDSA-Sig-Value and verifies under a key of the hop's
+    SKI and AS that is among the keys `spki_table_search_by_ski` returned in that hop's iteration. -/
+theorem valid_needs_own_lookup (d : Data) (V : View) (hski : ∀ s ∈ d.sigs, s.ski.length = 20)
+    (h : validateFull hash verify wf .skiAndAs true d V = .valid) (i : Nat) (s : SigSeg) (p : PathSeg)
+    (hs : d.sigs[i]? = some s) (hp : d.path[i]? = some p) :
+    wf s.sig = true ∧ ∃ k ∈ searchBySki (V (d.sigs.length + i)) s.ski, k.asn = p.asn ∧
+      verify k.spki (hash (digest d i)) s.sig = .valid := by
+  obtain ⟨hw, k, hk, hski', hasn, hv⟩ := ((decision_lookups hash verify wf d V hski).mp h).2.2 i s p hs hp
+  exact ⟨hw, k, by simp [searchBySki, List.mem_filter, hk, hski'], hasn, hv⟩
+
+/-- **A hop whose own lookup returned no key is never VALID** — whatever `check_router_keys` saw a moment
+    earlier, whatever the other hops do (any key selection; any loop bound that terminates, `hover`). -/
+theorem empty_lookup_never_valid (m : KeyMode) (stop : Bool) (d : Data) (V : View)
+    (hski : ∀ s ∈ d.sigs, s.ski.length = 20) (hover : stop = true ∨ NoOverrun d)
+    (i : Nat) (s : SigSeg) (hs : d.sigs[i]? = some s) (hempty : searchBySki (V (d.sigs.length + i)) s.ski = []) :
+    validateFull hash verify wf m stop d V ≠ .valid := by
+  intro h
+  have h' := (decision_lookups_general hash verify wf m stop d V hski hover).mp h
+  have hlen := h'.1.2.2.1
+  have hi : i < d.path.length := by
+    have := (List.getElem?_eq_some_iff.mp hs).1
+    omega
+  obtain ⟨_, k, hk, hok, _⟩ := h'.2.2 i s d.path[i] hs (List.getElem?_eq_getElem hi)
+  exact search_ne_nil_of_keyOk m _ s.ski _ k hk hok hempty
+
+/-- the same for the tree as repaired, without side condition -/
+theorem empty_lookup_never_valid_repaired (d : Data) (V : View) (hski : ∀ s ∈ d.sigs, s.ski.length = 20)
+    (i : Nat) (s : SigSeg) (hs : d.sigs[i]? = some s) (hempty : searchBySki (V (d.sigs.length + i)) s.ski = []) :
+    validateFull hash verify wf .skiAndAs true d V ≠ .valid :=
+  empty_lookup_never_valid hash verify wf .skiAndAs true d V hski (Or.inl rfl) i s hs hempty
+
+/-- a signature field that is not strict DER is never VALID, whatever `verify` would say about it -/
+theorem malformed_signature_never_valid (m : KeyMode) (stop : Bool) (d : Data) (V : View)
+    (hski : ∀ s ∈ d.sigs, s.ski.length = 20) (hover : stop = true ∨ NoOverrun d)
+    (s : SigSeg) (hs : s ∈ d.sigs) (hbad : wf s.sig = false) :
+    validateFull hash verify wf m stop d V ≠ .valid := by
+  intro h
+  have h' := (decision_lookups_general hash verify wf m stop d V hski hover).mp h
+  obtain ⟨i, hi, rfl⟩ := List.getElem_of_mem hs
+  have hp : i < d.path.length := by have := h'.1.2.2.1; omega
+  have := (h'.2.2 i d.sigs[i] d.path[i] (List.getElem?_eq_getElem hi) (List.getElem?_eq_getElem hp)).1
+  rw [hbad] at this; cases this
+
+/-- one fixed table is the special case of a constant view: `decision` is `decision_lookups` there -/
+theorem decision_wf (d : Data) (T : Table) (hski : ∀ s ∈ d.sigs, s.ski.length = 20) :
+    validateFull hash verify wf .skiAndAs true d (fun _ => T) = .valid ↔
+      Supported d ∧ ∀ i s p, d.sigs[i]? = some s → d.path[i]? = some p →
+        wf s.sig = true ∧ ∃ k ∈ T, k.ski = s.ski ∧ k.asn = p.asn ∧ verify k.spki (hash (digest d i)) s.sig = .valid := by
+  rw [decision_lookups hash verify wf d (fun _ => T) hski]
+  apply and_congr_right
+  intro _
+  constructor
+  · exact fun h => h.2
+  · intro h
+    refine ⟨fun i s p hs hp => ?_, h⟩
+    obtain ⟨_, k, hk, a, b, _⟩ := h i s p hs hp
+    exact ⟨k, hk, a, b⟩
+
+end lookups
+
 /-! ### F10: the full-strength statement is false for SKI-only key selection
 
 Toy crypto for the witness: a "signature" is the key followed by the hashed octets.  The path is
@@ -192,40 +319,42 @@ theorem err_null (d : Option Data) (T : Option Table) (h : d = none ∨ T = none
 theorem err_null_nlri (d : Option Data) (T : Option Table) :
     validateEntry hash verify m stop d true T = .invalidArguments := rfl
 
-/-- `!data->path || !data->sigs` -/
-theorem err_arguments (d : Data) (T : Table) (h : d.path = [] ∨ d.sigs = []) :
-    validate hash verify m stop d T = .invalidArguments := by
-  unfold validate; rw [if_pos h]
+/-- `!data->path || !data->sigs` (this and the following error theorems: for EVERY sequence of table
+    snapshots `V`; one fixed table `T` is `V = fun _ => T`, i.e. `validate hash verify m stop d T`) -/
+theorem err_arguments (d : Data) (V : View) (h : d.path = [] ∨ d.sigs = []) :
+    validateV hash verify m stop d V = .invalidArguments := by
+  unfold validateV; rw [if_pos h]
 
-theorem err_segment_count (d : Data) (T : Table) (h0 : ¬ (d.path = [] ∨ d.sigs = []))
-    (h : d.path.length ≠ d.sigs.length) : validate hash verify m stop d T = .wrongSegmentCount := by
-  unfold validate; rw [if_neg h0, if_pos h]
+theorem err_segment_count (d : Data) (V : View) (h0 : ¬ (d.path = [] ∨ d.sigs = []))
+    (h : d.path.length ≠ d.sigs.length) : validateV hash verify m stop d V = .wrongSegmentCount := by
+  unfold validateV; rw [if_neg h0, if_pos h]
 
-theorem err_suite (d : Data) (T : Table) (h0 : ¬ (d.path = [] ∨ d.sigs = []))
+theorem err_suite (d : Data) (V : View) (h0 : ¬ (d.path = [] ∨ d.sigs = []))
     (h1 : d.path.length = d.sigs.length) (h : d.alg ≠ 1) :
-    validate hash verify m stop d T = .unsupportedAlgorithmSuite := by
-  unfold validate; rw [if_neg h0, if_neg (by omega), if_pos h]
+    validateV hash verify m stop d V = .unsupportedAlgorithmSuite := by
+  unfold validateV; rw [if_neg h0, if_neg (by omega), if_pos h]
 
-theorem err_afi (d : Data) (T : Table) (h0 : ¬ (d.path = [] ∨ d.sigs = []))
+theorem err_afi (d : Data) (V : View) (h0 : ¬ (d.path = [] ∨ d.sigs = []))
     (h1 : d.path.length = d.sigs.length) (h2 : d.alg = 1) (h : d.nlri.afi ≠ 1 ∧ d.nlri.afi ≠ 2) :
-    validate hash verify m stop d T = .unsupportedAfi := by
-  unfold validate; rw [if_neg h0, if_neg (by omega), if_neg (by omega), if_pos h]
+    validateV hash verify m stop d V = .unsupportedAfi := by
+  unfold validateV; rw [if_neg h0, if_neg (by omega), if_neg (by omega), if_pos h]
 
-/-- a Signature Segment for which no router key counts (`skiOnly`: none with that SKI; `skiAndAs`:
-    none with that SKI under the AS of the Secure_Path segment) → `ROUTER_KEY_NOT_FOUND` -/
-theorem err_missing_key (d : Data) (T : Table) (hsup : Supported d) (i : Nat) (s : SigSeg) (p : PathSeg)
-    (hs : d.sigs[i]? = some s) (hp : d.path[i]? = some p) (hk : keysFor m T s.ski p.asn = []) :
-    validate hash verify m stop d T = .routerKeyNotFound := by
+/-- a Signature Segment for which the lookup of `check_router_keys` (lookup number `i`) finds no key that
+    counts (`skiOnly`: none with that SKI; `skiAndAs`: none with that SKI under the AS of the Secure_Path
+    segment) → `ROUTER_KEY_NOT_FOUND` -/
+theorem err_missing_key (d : Data) (V : View) (hsup : Supported d) (i : Nat) (s : SigSeg) (p : PathSeg)
+    (hs : d.sigs[i]? = some s) (hp : d.path[i]? = some p) (hk : keysFor m (V i) s.ski p.asn = []) :
+    validateV hash verify m stop d V = .routerKeyNotFound := by
   obtain ⟨a, b, c, e, f⟩ := hsup
-  unfold validate
+  unfold validateV
   rw [if_neg (by simp [a, b]), if_neg (by omega), if_neg (by omega), if_neg (by omega),
-    checkRouterKeys_missing m T d.sigs d.path i s p hs hp hk]
+    checkRouterKeysV_missing m V d.sigs d.path 0 i s p hs hp (by simpa using hk)]
 
 /-- whenever one of the pre-checks fails the answer is not VALID -/
-theorem never_valid_unless_supported (d : Data) (T : Table) (h : ¬ Supported d) :
-    validate hash verify m stop d T ≠ .valid := by
+theorem never_valid_unless_supported (d : Data) (V : View) (h : ¬ Supported d) :
+    validateV hash verify m stop d V ≠ .valid := by
   unfold Supported at h
-  unfold validate
+  unfold validateV
   by_cases h1 : d.path = [] ∨ d.sigs = []
   · rw [if_pos h1]; intro x; cases x
   by_cases h2 : d.path.length ≠ d.sigs.length
@@ -252,6 +381,21 @@ example : digest witness 1 = [0, 1, 0, 0, 1, 0, 0, 0, 251, 240, 1, 0, 1, 1, 24, 
 example : WfData witness := by
   constructor <;> decide
 example : digest witness 0 ≠ digest { witness with path := [⟨1, 0, 65536⟩, ⟨0, 0, 64496⟩] } 0 := by decide
+-- independent lookups: the witness validates while the table stays as it is …
+def toyWf (sig : List Nat) : Bool := sig.length ≤ 200
+example : validateFull toyHash toyVerify toyWf .skiAndAs true witness (fun _ => keysRight) = .valid := by decide
+-- … a key withdrawn after `check_router_keys` (lookups 0, 1) and before the lookup of loop iteration 1
+-- (lookup 3) is answered with `RTR_BGPSEC_SUCCESS` (= 0, not VALID: `hash_byte_sequence`'s status) …
+example : validateFull toyHash toyVerify toyWf .skiAndAs true witness (fun k => if k < 3 then keysRight else keysRight.take 1) = .success := by decide
+example : searchBySki ((fun k => if k < 3 then keysRight else keysRight.take 1) (witness.sigs.length + 1)) ski2 = [] := by decide
+-- … replaced by the same key under another AS: NOT_VALID; a key that arrives after the pre-check is too late
+example : validateFull toyHash toyVerify toyWf .skiAndAs true witness (fun k => if k < 2 then keysRight else keysWrongAs) = .notValid := by decide
+example : validateFull toyHash toyVerify toyWf .skiAndAs true witness (fun k => if k < 1 then keysWrongAs else keysRight) = .routerKeyNotFound := by decide
+-- … while a key missing only at a lookup that does not ask for it (lookup 1 asks for ski2) does not disturb
+example : validateFull toyHash toyVerify toyWf .skiAndAs true witness (fun k => if k = 1 then keysRight.drop 1 else keysRight) = .valid := by decide
+-- a signature field that is not well-formed is an ERROR although `verify` accepts it
+example : validateFull toyHash toyVerify (fun sig => sig.length ≤ 30) .skiAndAs true witness (fun _ => keysRight) = .error := by decide
+example : toyVerify [11] (toyHash (digest witness 0)) wsig1 = .valid ∧ wsig1.length > 30 := by decide
 -- error codes reached
 example : validate toyHash toyVerify .skiOnly false { witness with sigs := witness.sigs.drop 1 } keysRight = .wrongSegmentCount := by decide
 example : validate toyHash toyVerify .skiOnly false { witness with alg := 2 } keysRight = .unsupportedAlgorithmSuite := by decide
